@@ -77,7 +77,7 @@ def _directed(wb):
             if lx <= 3 ** 11 and i["len"] >= 8:
                 for _ in range(3):
                     ins.append(dict(op="pow2.Mine", **{"in": dict(data=[rnd.randrange(256) for _ in range(i["len"] - 8)], target=i["target"], workers=1)}))
-                for _ in range(150):      # soundness only (several workers): a boundary slip may show for a fraction of the messages only
+                for _ in range(400):      # soundness only (several workers): a boundary slip may show for a fraction of the messages only
                     ins.append(dict(op="pow2.Mine", **{"in": dict(data=[rnd.randrange(256) for _ in range(i["len"] - 8)], target=i["target"], workers=4)}))
     return ins
 
@@ -107,6 +107,19 @@ def judge(ctx, bins, events, what):
             # directed Mine calls for the deviating parameters plus a larger general campaign, judged by the same trace spec
             d = ctx.rundir("escalate_" + pk)
             ev = []
+            if pk == "pow2":     # move each deviating (length, target) to where the deviation shows most (white-box probe)
+                pr = [dict(op="pow2.probe", **{"in": dict(len=e["in"]["len"], target=e["in"]["target"])}) for e in wb if e["op"] == "pow2.params"][:4]
+                if pr:
+                    vlib.write_ndjson(d + "/probe.ndjson", pr)
+                    vlib.run_driver(ctx, binp, "replay", d + "/probe_out.ndjson", infile=d + "/probe.ndjson", timeout=600)
+                    moved = []
+                    for o in vlib.read_ndjson(d + "/probe_out.ndjson"):
+                        t2 = o["out"].get("target_hi")
+                        if t2:
+                            ln = o["in"]["len"]
+                            lx2 = sum(v << (12 * k) for k, v in enumerate(t2)) * ln
+                            moved.append(dict(op="pow2.params", **{"in": dict(len=ln, target=t2, lx=[(lx2 >> (12 * k)) & 4095 for k in range((lx2.bit_length() + 11) // 12)])}))
+                    wb = moved + list(wb)
             ins = [x for x in _directed(wb) if x["op"].startswith(pk + ".")]
             if ins:
                 vlib.write_ndjson(d + "/in.ndjson", ins)
